@@ -200,4 +200,52 @@ C16_OK(o) ==
              \* a children deletion has no rollback: the exception propagates and no further hook fires -- in particular
              \* _post_detach_children must not announce a completion that did not happen
              /\ (o.k = "dc" => Len(L) = fr)
+
+(***************************************************************************)
+(* Re-entrant hooks (fault plans of mode "act", MC_OpsRe): the hook        *)
+(* invocation with ordinal plan.ak makes the public call am.parent = av.   *)
+(* The listed properties quantify over hooks that observe and raise; what  *)
+(* is stated here is what they imply for hooks that use the library:       *)
+(*  (1) the call made by the hook is an ordinary public call on the forest *)
+(*      the hook observes, and C01 C02 C03 C16 hold for it as for any      *)
+(*      other call (the interrupted call must have left the forest in the  *)
+(*      state its hook protocol promises);                                 *)
+(*  (2) if the hook does not interfere with the link in flight (it does    *)
+(*      not move the node whose hook is running, and does not move the     *)
+(*      target below that node), the interrupted call keeps the forest     *)
+(*      well-formed in every later observation and every later per-node    *)
+(*      hook still observes what C16 promises.                             *)
+(* The observation carries `nest` = [lo, hi: log entries of the nested     *)
+(* call, exc: its outcome, par, ch: the forest when it returned].          *)
+(***************************************************************************)
+Acted(o) == /\ o.plan.mode = "act" /\ o.plan.ak \in 1..Len(o.log)
+            /\ o.nest.lo = o.plan.ak + 1 /\ o.nest.hi \in o.plan.ak..Len(o.log)
+NestedObs(o) ==
+  LET e == o.log[o.plan.ak] IN
+  [k |-> "sp", n |-> o.plan.am, v |-> o.plan.av, xs |-> <<>>, bad |-> FALSE, plan |-> NoFault, strict |-> o.strict,
+   prepar |-> e.par, prech |-> e.ch, postpar |-> o.nest.par, postch |-> o.nest.ch, exc |-> o.nest.exc, src |-> 0,
+   log |-> SubSeq(o.log, o.nest.lo, o.nest.hi), sure |-> TRUE]
+PerNodeHooks == {"pre_detach", "post_detach", "pre_attach", "post_attach"}
+NonInterfering(o) ==
+  LET e == o.log[o.plan.ak]
+      m == o.plan.am
+      w == o.plan.av IN
+  /\ e.h \in PerNodeHooks => (m # e.n /\ (w = Nil \/ e.n \notin PathSet(e.par, w)))
+  \* with the library's internal assertions switched on, the children setter and deleter additionally re-count
+  \* the children list they are working on
+  /\ (o.asrt /\ o.k # "sp") => (w # o.n /\ e.par[m] # o.n)
+\* the properties of the nested call that fail, and those of the interrupted call
+ReViolated(o) ==
+  IF ~Acted(o) THEN {}
+  ELSE LET e == o.log[o.plan.ak]
+           no == NestedObs(o) IN
+       (IF WellFormed(e.par, e.ch)
+        THEN (IF ~C01_OK(no) THEN {"C01"} ELSE {}) \cup (IF ~C02_OK(no) THEN {"C02"} ELSE {})
+             \cup (IF ~C03_OK(no) THEN {"C03"} ELSE {}) \cup (IF ~C16_OK(no) THEN {"C16"} ELSE {})
+        ELSE {})
+       \cup (IF NonInterfering(o) /\ WellFormed(o.prepar, o.prech)
+             THEN (IF ~C01_OK(o) THEN {"C01"} ELSE {})
+                  \cup (IF \E i \in 1..Len(o.log): ~Observes(o.log[i]) THEN {"C16"} ELSE {})
+             ELSE {})
+Re_OK(o) == ReViolated(o) = {}
 =============================================================================
